@@ -3,7 +3,7 @@
    Modified dependency on a failed row is never found clean (unless it was
    already verified in this very run). *)
 From Coq Require Import ZArith Lia.
-From Redo Require Import Base.Bytes Build.Model Build.FsLemmas Build.RecordProofs Build.LocalProofs Build.Protect.
+From Redo Require Import Base.Bytes Base.BytesProofs Build.Model Build.FsLemmas Build.RecordProofs Build.LocalProofs Build.Protect.
 
 Definition failed_at (w : world) (g : fid) : Prop := r_failed (get_row (dbs w) g) <> None.
 
@@ -124,4 +124,136 @@ Proof.
   - exists d, (load runid (dbs w) (d_source d)). split; [|split; [exact Hm|]].
     + unfold deps_rows. apply in_map_iff. exists d. split; [reflexivity|exact Hin].
     + rewrite load_failed. exact Hf.
+Qed.
+
+(* ================================================================ C14: ifcreate and always edges *)
+(* The walk never ends "clean" when one of the edges still to be looked at is
+   "bad": a Created edge whose path exists now, or a Modified edge whose row
+   copy is one the sub-check never finds clean (predicate P). *)
+Definition bad_edge (P : row -> Prop) (w : world) (x : dep * row) : Prop :=
+  (d_mode (fst x) = DCreated /\ exists_b w (r_name (snd x)) = true)
+  \/ (d_mode (fst x) = DModified /\ P (snd x)).
+
+Lemma walk_deps_bad_edge_not_clean (P : row -> Prop) isd runid f r :
+  (forall w0 c0 s rs v w' c' evs, isd w0 c0 s rs = Ret (v, w', c', evs) -> fs w' = fs w0) ->
+  (forall w0 c0 s rs v w' c' evs, isd w0 c0 s rs = Ret (v, w', c', evs) -> P rs -> v = VDirty \/ v = VCycle) ->
+  forall ds w0 c0 must evs0 v w' c' evs,
+    walk_deps isd runid f r ds w0 c0 must evs0 = Ret (v, w', c', evs) ->
+    must <> [] \/ (exists x, In x ds /\ bad_edge P w0 x) -> v <> VClean.
+Proof.
+  intros Hfs Hbad. induction ds as [|[d rs] ds IHds]; intros w0 c0 must evs0 v w' c' evs H Hor; cbn [walk_deps] in H.
+  - destruct Hor as [Hm|(x & [] & _)]. destruct must; [congruence|]. inversion H; subst. discriminate.
+  - assert (Hnext : forall w1, fs w1 = fs w0 -> ~ bad_edge P w0 (d, rs) ->
+              must <> [] \/ (exists x, In x ds /\ bad_edge P w1 x)).
+    { intros w1 Hw1 Hnot. destruct Hor as [Hm|(x & [Hx|Hin] & Hb)]; [now left| |].
+      - subst x. contradiction.
+      - right. exists x. split; [exact Hin|]. unfold bad_edge, exists_b in *. now rewrite Hw1. }
+    destruct (d_mode d) eqn:Em.
+    + destruct (exists_b w0 (r_name rs)) eqn:Ex.
+      * inversion H; subst. destruct (r_csum r); discriminate.
+      * eapply IHds; [exact H|]. apply Hnext; [reflexivity|].
+        unfold bad_edge. cbn [fst snd]. rewrite Em, Ex. intros [[_ X]|[X _]]; discriminate.
+    + destruct (isd w0 c0 (d_source d) rs) as [[[[v1 w1] c1] e1]|] eqn:E; [|discriminate].
+      pose proof (Hfs _ _ _ _ _ _ _ _ E) as F1.
+      assert (Hnot : forall l0, v1 = VClean \/ v1 = VNeed l0 -> ~ bad_edge P w0 (d, rs)).
+      { intros l0 Hv. unfold bad_edge. cbn [fst snd]. rewrite Em. intros [[X _]|[_ X]]; [discriminate|].
+        destruct (Hbad _ _ _ _ _ _ _ _ E X) as [-> | ->]; destruct Hv; discriminate. }
+      destruct v1.
+      * eapply IHds; [exact H|]. apply Hnext; [exact F1|]. apply (Hnot []). now left.
+      * inversion H; subst. destruct (r_csum r); discriminate.
+      * eapply IHds; [exact H|].
+        destruct (Hnext w1 F1) as [Hm|Hd]; [apply (Hnot l); now right|left|right; exact Hd].
+        destruct must; [congruence|discriminate].
+      * inversion H; subst. discriminate.
+Qed.
+
+(* a row is judged "never clean" when it is newer than anything an unbuilt parent can show:
+   the copy of //ALWAYS (changed_runid pinned to this run by the view) is such a row *)
+Definition newer_than_any_old (runid : Z) (rs : row) : Prop :=
+  exists chg, r_changed rs = Some chg /\ (runid <= chg)%Z.
+
+Lemma always_row_newer runid d s :
+  (0 < runid)%Z -> r_name (get_row d s) = always_name -> newer_than_any_old runid (load runid d s).
+Proof.
+  intros Hpos Hn. unfold newer_than_any_old, load, view_row. rewrite Hn, bytes_eqb_refl. cbn [r_changed].
+  destruct (r_changed (get_row d s)) as [c|]; eexists; (split; [reflexivity|lia]).
+Qed.
+
+(* C14: a target with a recorded redo-ifcreate edge to a path that now exists, or
+   with a recorded edge to //ALWAYS, is not found clean by a run that has not
+   dealt with it yet (its own changed/checked ids are older than the run) *)
+Theorem ifcreate_or_always_not_clean fuel runid w c f r mx seen v w' c' evs chg :
+  (0 < runid)%Z ->
+  is_dirty fuel runid w c f r mx seen = Ret (v, w', c', evs) ->
+  chk_is_checked c runid r f = false ->
+  r_changed r = Some chg -> (chg < runid)%Z ->
+  (match r_checked r with Some k => k | None => 0 end < runid)%Z ->
+  (exists d, In d (deps_of (dbs w) r f) /\
+     ((d_mode d = DCreated /\ exists_b w (r_name (get_row (dbs w) (d_source d))) = true)
+      \/ (d_mode d = DModified /\ r_name (get_row (dbs w) (d_source d)) = always_name))) ->
+  v <> VClean.
+Proof.
+  intros Hpos. destruct fuel as [|fuel]; [discriminate|]. intros H Hchk Hc Hlt Hck (d & Hin & Hd). cbn [is_dirty] in H.
+  destruct (existsb (Nat.eqb f) seen); [inversion H; discriminate|].
+  destruct (r_failed r); [inversion H; discriminate|].
+  rewrite Hc in H.
+  destruct (Z.ltb mx chg); [inversion H; discriminate|].
+  rewrite Hchk in H.
+  destruct (r_stamp r) as [old|]; [|inversion H; discriminate].
+  destruct (negb (stamp_eqb old (read_stamp w (r_name r)))).
+  { inversion H; subst. destruct (r_csum r); discriminate. }
+  set (sm := Z.max chg match r_checked r with Some k => k | None => 0%Z end) in *.
+  assert (Hsm : (sm < runid)%Z) by (unfold sm; lia).
+  eapply (walk_deps_bad_edge_not_clean (newer_than_any_old runid)); [| |exact H|right].
+  - intros w0 c0 s rs v0 w0' c0' evs0 E. eapply is_dirty_fs; exact E.
+  - intros w0 c0 s rs v0 w0' c0' evs0 E (cg & Hcg & Hle).
+    destruct fuel as [|fuel']; [discriminate|]. cbn [is_dirty] in E.
+    destruct (existsb (Nat.eqb s) (f :: seen)); [inversion E; auto|].
+    destruct (r_failed rs); [inversion E; auto|]. rewrite Hcg in E.
+    assert (Hl : Z.ltb sm cg = true) by (apply Z.ltb_lt; lia). rewrite Hl in E. inversion E; auto.
+  - exists (d, load runid (dbs w) (d_source d)). split.
+    + unfold deps_rows. apply in_map_iff. exists d. split; [reflexivity|exact Hin].
+    + unfold bad_edge. cbn [fst snd]. destruct Hd as [[Hm Hex]|[Hm Hn]]; [left|right].
+      * split; [exact Hm|]. now rewrite load_name.
+      * split; [exact Hm|]. now apply always_row_newer.
+Qed.
+
+(* ================================================================ C01: a dependency that moved on *)
+(* A recorded Modified dependency that failed, was never built, or changed in a
+   later run than the one in which the target was last built or verified makes
+   the target not clean -- wherever it stands in the dependency list, whatever
+   the other rows say. *)
+Definition moved_on (sm : Z) (rs : row) : Prop :=
+  r_failed rs <> None \/ r_changed rs = None \/ (exists cg, r_changed rs = Some cg /\ (sm < cg)%Z).
+
+Theorem moved_on_dep_not_clean fuel runid w c f r mx seen v w' c' evs chg :
+  is_dirty fuel runid w c f r mx seen = Ret (v, w', c', evs) ->
+  chk_is_checked c runid r f = false ->
+  r_changed r = Some chg ->
+  (exists d, In d (deps_of (dbs w) r f) /\ d_mode d = DModified /\
+     moved_on (Z.max chg match r_checked r with Some k => k | None => 0%Z end) (load runid (dbs w) (d_source d))) ->
+  v <> VClean.
+Proof.
+  destruct fuel as [|fuel]; [discriminate|]. intros H Hchk Hc (d & Hin & Hm & Hmv). cbn [is_dirty] in H.
+  destruct (existsb (Nat.eqb f) seen); [inversion H; discriminate|].
+  destruct (r_failed r); [inversion H; discriminate|].
+  rewrite Hc in H.
+  destruct (Z.ltb mx chg); [inversion H; discriminate|].
+  rewrite Hchk in H.
+  destruct (r_stamp r) as [old|]; [|inversion H; discriminate].
+  destruct (negb (stamp_eqb old (read_stamp w (r_name r)))).
+  { inversion H; subst. destruct (r_csum r); discriminate. }
+  set (sm := Z.max chg match r_checked r with Some k => k | None => 0%Z end) in *.
+  eapply (walk_deps_bad_edge_not_clean (moved_on sm)); [| |exact H|right].
+  - intros w0 c0 s rs v0 w0' c0' evs0 E. eapply is_dirty_fs; exact E.
+  - intros w0 c0 s rs v0 w0' c0' evs0 E Hmo.
+    destruct fuel as [|fuel']; [discriminate|]. cbn [is_dirty] in E.
+    destruct (existsb (Nat.eqb s) (f :: seen)); [inversion E; auto|].
+    destruct (r_failed rs) eqn:Ef; [inversion E; auto|].
+    destruct Hmo as [Hf|[Hn|(cg & Hcg & Hl)]]; [congruence| |].
+    + rewrite Hn in E. inversion E; auto.
+    + rewrite Hcg in E. assert (Hl' : Z.ltb sm cg = true) by (apply Z.ltb_lt; exact Hl). rewrite Hl' in E. inversion E; auto.
+  - exists (d, load runid (dbs w) (d_source d)). split.
+    + unfold deps_rows. apply in_map_iff. exists d. split; [reflexivity|exact Hin].
+    + right. split; [exact Hm|exact Hmv].
 Qed.
